@@ -243,4 +243,6 @@ MUTANTS = [
  dict(id="C12", name="apropos_first_prefix_wins", edits=[(PC, '    for(const Port &port: ports)\n        if(*path && rtosc_match_path(port.name, path, NULL))\n            return &port;\n    for(const Port &port: ports)\n        if(*path && strstr(port.name, path)==port.name)\n            return &port;\n', '    for(const Port &port: ports)\n        if(*path && (strstr(port.name, path)==port.name ||\n                    rtosc_match_path(port.name, path, NULL)))\n            return &port;\n')]),
  dict(id="C13", name="depends_list_empty_entry_scanned", edits=[(SF, "                    if(!*enabled_by) // rDepends() ends its list with a ','\n                        break;\n", "")]),
  dict(id="C13", name="self_enabled_by_ignored", edits=[(SF, "        if(!is_leaf_level && port && port->ports)\n", "        if(false && port && port->ports)\n")]),
+ dict(id="C15", name="set_message_in_a_256_byte_buffer", edits=[(UH, "    std::vector<char> res(rtosc_amessage(NULL, 0, addr, types, &arg));\n", "    std::vector<char> res(256);\n")]),
+ dict(id="C15", name="old_value_sent_with_the_new_values_type", edits=[(UH, "    const char  types[2] = {rtosc_type(msg, arg_idx), 0};\n", "    const char  types[2] = {rtosc_type(msg, 2), 0};\n")]),
 ]
